@@ -727,6 +727,41 @@ func indexKeys(c *Ctx, r *Report, rule string) {
 				}
 				return true
 			})
+			// a temporary holding the key (`h := next.String()`, assigned once) stands for its defining expression
+			for round := 0; round < 2; round++ {
+				for _, k := range append([]types.Object{}, kids...) {
+					var def ast.Expr
+					ndef := 0
+					walkNoLit(fn.Body, func(m ast.Node) bool {
+						if as, ok := m.(*ast.AssignStmt); ok && len(as.Lhs) == len(as.Rhs) {
+							for i, l := range as.Lhs {
+								if lid, ok := ast.Unparen(l).(*ast.Ident); ok && p.ObjOf(fn, lid) == k {
+									ndef++
+									def = as.Rhs[i]
+								}
+							}
+						}
+						return true
+					})
+					if ndef == 1 && def != nil {
+						ast.Inspect(def, func(m ast.Node) bool {
+							if id, ok := m.(*ast.Ident); ok {
+								if o, isVar := p.ObjOf(fn, id).(*types.Var); isVar {
+									kids = append(kids, o)
+								}
+							}
+							if c2, ok := m.(*ast.CallExpr); ok {
+								if s2, ok := ast.Unparen(c2.Fun).(*ast.SelectorExpr); ok && s2.Sel.Name == "GetHash" {
+									if id, ok := ast.Unparen(s2.X).(*ast.Ident); ok && p.ObjOf(fn, id) == vobj {
+										okKey, how = true, "the entry's own hash"
+									}
+								}
+							}
+							return true
+						})
+					}
+				}
+			}
 			if !okKey {
 				// (b) the key the value was looked up with; (c) a link of the value
 				walkNoLit(fn.Body, func(m ast.Node) bool {
